@@ -23,7 +23,8 @@ UseOut(e) == [i \in 1..(2 * Len(Holders)) |->
                LET H == Holders[((i - 1) \div 2) + 1]  stmt == IF i % 2 = 1 THEN "when" ELSE "must" IN
                [h |-> H.h, stmt |-> stmt,
                 intent |-> UseOutcome(stmt, TRUE, TRUE, H.npc, NInvalid(e, H.ctx)),
-                fork |-> UseOutcome(stmt, TRUE, ~ForkRejects(e), H.npc, 0)]]
+                fork |-> UseOutcome(stmt, TRUE, ~ForkRejects(e), H.npc, 0),      \* F2 and F3
+                f3 |-> UseOutcome(stmt, TRUE, TRUE, H.npc, 0)]]                   \* F3 alone (the grammar accepts, nothing is validated)
 Vec(e, f) ==
   LET pf == PathEvalCompileFork(e) IN
   [fam |-> f,
